@@ -195,6 +195,8 @@ type Sim struct {
 	OnBranch func(st *State, cond ssa.Value, truth bool)
 	Pinned   map[ssa.Value]bool
 	Progress map[string]bool // effects that count as loop progress
+	// FieldVals binds reads of struct-value fields (*ssa.Field) to abstract values.
+	FieldVals map[*types.Var]AV
 	MaxNodes int
 
 	// results of the last Run (top-level function only)
@@ -633,6 +635,12 @@ func (s *Sim) execBlock(rc *runCtx, it workItem) []workItem {
 		case *ssa.Panic:
 			s.addOutcome(rc, Outcome{St: st, Panic: true, Pos: x.Pos()})
 			return nil
+		case *ssa.Field:
+			if a, ok := s.FieldVals[fieldOfVal(x)]; ok && a.K != avTop {
+				st.vals[x] = a
+			} else {
+				delete(st.vals, x)
+			}
 		case ssa.Value:
 			// every other value-producing instruction: unknown
 			switch in.(type) {
@@ -898,6 +906,11 @@ func (s *Sim) doCall(rc *runCtx, it workItem, st *State, call ssa.CallInstructio
 		delete(st.vals, v)
 		if callee == nil {
 			s.UnknownCalls[callDesc(call)]++
+		} else {
+			switch callee.String() {
+			case "errors.New", "fmt.Errorf":
+				st.vals[v] = AV{K: avNonNil} // these never return nil
+			}
 		}
 	}
 	return []*State{st}
